@@ -10,6 +10,7 @@ import (
 	"fmt"
 	"math/big"
 	"sort"
+	"strings"
 
 	"github.com/youchainhq/go-youchain/core/state"
 	"github.com/youchainhq/go-youchain/params"
@@ -24,6 +25,8 @@ type genProfile struct {
 	txPerBlk int
 	evRate   int // percent of blocks that carry evidence
 	heavy    bool
+	gasLim   uint64 // genesis gas limit of the world (0 = default 30M)
+	wkRate   int    // percent of blocks built through the worker's candidate loop
 }
 
 func genWorld(r *vh.RNG) ([]string, *genProfile) {
@@ -41,7 +44,19 @@ func genWorld(r *vh.RNG) ([]string, *genProfile) {
 	if r.Chance(12) {
 		ver = 4 // pre-V5 reward split (proposer's own role) and validator iteration through GetValidators().List()
 	}
-	lines := []string{fmt.Sprintf("W users=8 pool=%s ver=%d", pool, ver)}
+	hdr := fmt.Sprintf("W users=8 pool=%s ver=%d", pool, ver)
+	switch r.Intn(5) {
+	case 0:
+		p.gasLim, p.wkRate = 1500000, 20
+	case 1:
+		p.gasLim, p.wkRate = 3000000, 15
+	default:
+		p.wkRate = 4
+	}
+	if p.gasLim != 0 {
+		hdr += fmt.Sprintf(" gl=%d", p.gasLim)
+	}
+	lines := []string{hdr}
 	n := r.Range(3, 7)
 	odd := func() *big.Int { return big.NewInt(int64(r.Intn(1000000000)) * int64(r.Intn(1000000000))) }
 	for k := 0; k < n; k++ {
@@ -125,7 +140,113 @@ func amountAround(r *vh.RNG, base *big.Int) *big.Int {
 	return v
 }
 
+// estimated gas really used by a candidate line (for sizing worker blocks)
+func estGas(l string) uint64 {
+	switch {
+	case strings.HasPrefix(l, "T "):
+		return 21000
+	case strings.HasPrefix(l, "K "):
+		f := strings.Fields(l)
+		switch f[2] {
+		case "4":
+			return 95000
+		case "5":
+			return 200000
+		}
+		return 30000
+	}
+	return 150000
+}
+
+// genWorkerBlock: a candidate set for miner/worker.go's loop: acceptable candidates whose estimated real gas is 1.2-2.5x the
+// block gas limit (so the pool boundary is hit), interleaved with refused ones of every class.
+func (p *genProfile) genWorkerBlock(r *vh.RNG, w *world, st *state.StateDB, gasLimit uint64) []string {
+	target := gasLimit * uint64(r.Range(12, 25)) / 10
+	if gasLimit > 5000000 {
+		target = uint64(r.Range(10, 40)) * 150000 // default worlds: a few dozen candidates, the boundary is hit by large gas limits
+	}
+	base := p.genBlockN(r, w, st, 1)
+	lines := []string{base[0], "WK"}
+	var tail []string
+	for _, l := range base[1:] {
+		if strings.HasPrefix(l, "EV ") || l == "FS" {
+			tail = append(tail, l)
+		}
+	}
+	var est uint64
+	for est < target && len(lines) < 140 {
+		var l string
+		u := r.Intn(w.users)
+		switch r.Weighted([]int{18, 22, 14, 18, 28}) {
+		case 0:
+			l = fmt.Sprintf("T %d x%d %d", u, r.Intn(3), r.Intn(1000000))
+		case 1:
+			l = fmt.Sprintf("K %d 4 %064x%064x%064x%064x 0", u, r.Range(0, 40)*4, r.Intn(3)*r.Intn(1000), 1+r.Intn(1000), r.Intn(2)*r.Intn(1000))
+		case 2:
+			l = genK5(r, u)
+		case 3:
+			// a few staking candidates out of the ordinary generator
+			b := p.genBlockN(r, w, st, 3)
+			for _, x := range b[1:] {
+				if !strings.HasPrefix(x, "EV ") && x != "FS" && !strings.Contains(x, " n=") {
+					l = x
+					break
+				}
+			}
+		case 4: // refused candidates
+			big := gasLimit * uint64(r.Range(3, 11)) / 10
+			switch r.Intn(7) {
+			case 0:
+				l = fmt.Sprintf("T %d u1 1000 n=%d", u, r.Range(2, 4)) // nonce too high: the sender's later candidates go with it
+			case 1:
+				l = fmt.Sprintf("T %d u1 1000 n=-1", u) // nonce too low once the previous one is in
+			case 2:
+				l = fmt.Sprintf("T %d u1 1000 p=1000000000000", u) // cannot pay for the gas
+			case 3:
+				l = fmt.Sprintf("T %d x1 %s g=%d", u, youN(4000000), big) // can pay the gas, not the value; large reservation
+			case 4:
+				l = fmt.Sprintf("T %d x2 %s g=%d", u, youN(1600000), 21000+uint64(r.Intn(3))*uint64(big)) // affordable alone, not twice
+			case 5:
+				l = fmt.Sprintf("T %d u2 5 g=%d", u, []int{20000, 20999, 100}[r.Intn(3)]) // intrinsic gas above the tx gas
+			case 6:
+				l = fmt.Sprintf("T %d u3 7 g=%d", u, big) // gas limit above what may be left in the pool
+			}
+		}
+		if l == "" {
+			continue
+		}
+		if !strings.Contains(l, " p=") && r.Chance(60) {
+			l += fmt.Sprintf(" p=%d", []int{1, 2, 3, 7, 33, 250}[r.Intn(6)])
+		}
+		est += estGas(l)
+		lines = append(lines, l)
+	}
+	return append(lines, tail...)
+}
+
+func genK5(r *vh.RNG, u int) string {
+	word := func() string {
+		switch r.Intn(8) {
+		case 0, 1, 2:
+			return fmt.Sprintf("%064x", 0)
+		case 3:
+			return strings.Repeat("f", 64) // -1
+		case 4:
+			return fmt.Sprintf("%064x", 256+r.Intn(1000)) // shift >= 256, SIGNEXTEND out of range
+		case 5:
+			return "8" + strings.Repeat("0", 63) // minimum signed
+		default:
+			return fmt.Sprintf("%064x", r.Intn(40))
+		}
+	}
+	return fmt.Sprintf("K %d 5 %s%s%s 0", u, word(), word(), word())
+}
+
 func (p *genProfile) genBlock(r *vh.RNG, w *world, st *state.StateDB) []string {
+	return p.genBlockN(r, w, st, 0)
+}
+
+func (p *genProfile) genBlockN(r *vh.RNG, w *world, st *state.StateDB, force int) []string {
 	vals := w.valViews(st)
 	var cands []int
 	for _, v := range vals {
@@ -144,6 +265,9 @@ func (p *genProfile) genBlock(r *vh.RNG, w *world, st *state.StateDB) []string {
 	}
 	if p.heavy && r.Chance(30) {
 		ntx += r.Range(16, 40) // enough transactions for ProcessSenders to fan out over goroutines
+	}
+	if force > 0 {
+		ntx = force
 	}
 	pickVal := func(pred func(valView) bool) (valView, bool) {
 		var c []valView
@@ -170,7 +294,9 @@ func (p *genProfile) genBlock(r *vh.RNG, w *world, st *state.StateDB) []string {
 			}
 			l = fmt.Sprintf("T %d %s %s", u, addrIDs[r.Intn(len(addrIDs))], val)
 		case 1:
-			switch r.Intn(8) {
+			switch r.Intn(11) {
+			case 8, 9, 10:
+				l = genK5(r, u)
 			case 0:
 				l = fmt.Sprintf("K %d 0 %064x 0", u, r.Range(1, 255))
 			case 1:
